@@ -173,3 +173,95 @@ Proof.
   - apply alloc_allocs. lia.
   - intros [] l _. destruct (zlen r <? a * 256 + b - 2); simpl; constructor.
 Qed.
+
+(* ---------- a compositional specification predicate ----------
+   good g B post m :  (with the proposed checks, g = true) m does not panic; m never runs out
+   of fuel; every allocation request of m is <= B; an Ok result satisfies post. *)
+Definition good {A} (g : bool) (B : Z) (post : A -> Prop) (m : M A) : Prop :=
+  (g = true -> fst m <> Panic) /\ fst m <> OutOfFuel /\ Forall (fun a => a <= B) (snd m) /\
+  (forall a, fst m = Ok a -> post a).
+
+Lemma good_ret : forall {A} g B (post : A -> Prop) a, post a -> good g B post (ret a).
+Proof. intros. unfold good, ret; simpl. repeat split; try congruence; auto; try (intros a0 H0; inversion H0; subst; auto). Qed.
+Lemma good_err : forall {A} g B (post : A -> Prop), good g B post err.
+Proof. intros. unfold good, err; simpl. repeat split; try congruence; auto. Qed.
+Lemma good_pan_unfixed : forall {A} B (post : A -> Prop), good false B post pan.
+Proof. intros. unfold good, pan; simpl. repeat split; try congruence; auto. Qed.
+Lemma good_bind : forall {A C} g B (pa : A -> Prop) (pc : C -> Prop) (m : M A) (f : A -> M C),
+  good g B pa m -> (forall a, pa a -> good g B pc (f a)) -> good g B pc (bind m f).
+Proof.
+  intros A C g B pa pc [[a| | |] l] f (H1 & H2 & H3 & H4) Hf; unfold good, bind in *; simpl in *.
+  - destruct (Hf a (H4 a eq_refl)) as (F1 & F2 & F3 & F4).
+    split; [exact F1|]. split; [exact F2|]. split; [apply Forall_app; auto|exact F4].
+  - split; [intros; discriminate|]. split; [discriminate|]. split; [exact H3|]. intros; discriminate.
+  - split; [intros Hg E; apply (H1 Hg); reflexivity|]. split; [discriminate|]. split; [exact H3|]. intros; discriminate.
+  - exfalso. apply H2; reflexivity.
+Qed.
+Lemma good_weaken : forall {A} g B B' (p p' : A -> Prop) m,
+  good g B p m -> B <= B' -> (forall a, p a -> p' a) -> good g B' p' m.
+Proof.
+  intros A g B B' p p' m (H1 & H2 & H3 & H4) HB Hp. repeat split; auto.
+  eapply Forall_impl; [|exact H3]. simpl; intros; lia.
+Qed.
+Lemma good_lift_ok : forall {A} g B (post : A -> Prop) o a, o = Ok a -> post a -> good g B post (lift o).
+Proof. intros; subst. apply good_ret; auto. Qed.
+Lemma good_lift_panic_unfixed : forall {A} B (post : A -> Prop) o, o = Panic -> good false B post (lift o).
+Proof. intros; subst. apply good_pan_unfixed. Qed.
+Lemma good_alloc : forall g B (post : unit -> Prop) n sz,
+  0 <= n -> n * sz <= maxAlloc -> n * sz <= B -> post tt -> good g B post (alloc n sz).
+Proof.
+  intros. unfold good, alloc.
+  destruct (Z.ltb_spec n 0); [lia|]. destruct (Z.ltb_spec maxAlloc (n * sz)); [lia|]. simpl.
+  repeat split; try congruence; auto; try (intros []; auto).
+Qed.
+Lemma good_note : forall g B (post : unit -> Prop) n, n <= B -> post tt -> good g B post (note_alloc n).
+Proof. intros. unfold good, note_alloc; simpl. repeat split; try congruence; auto; try (intros []; auto). Qed.
+Lemma good_idx : forall g B l i, 0 <= i < zlen l -> good g B (fun v => v = znth l i 0) (idx l i).
+Proof.
+  intros. unfold good, idx. destruct (Z.ltb_spec i 0); [lia|]. destruct (Z.leb_spec (zlen l) i); [lia|]. simpl.
+  repeat split; try congruence; auto; try (intros a Ha; inversion Ha; auto).
+Qed.
+Lemma good_read_segment : forall g bs, bytes bs ->
+  good g 65533 (fun x => bytes (fst x) /\ bytes (snd x) /\ zlen (fst x) <= 65533 /\ (length (snd x) <= length bs)%nat) (read_segment bs).
+Proof.
+  intros g bs Hb. pose proof (read_segment_np bs Hb). pose proof (read_segment_nf bs). pose proof (read_segment_allocs bs Hb).
+  unfold good, np, nf in *. repeat split; auto.
+  - destruct a as [d rest]. destruct (read_segment bs) as [o l] eqn:E. simpl in H2; subst.
+    destruct (read_segment_ok _ _ _ _ E) as [_ Hx]. apply Hx; auto.
+  - destruct a as [d rest]. destruct (read_segment bs) as [o l] eqn:E. simpl in H2; subst.
+    destruct (read_segment_ok _ _ _ _ E) as [_ Hx]. apply Hx; auto.
+  - destruct a as [d rest]. destruct (read_segment bs) as [o l] eqn:E. simpl in H2; subst.
+    destruct (read_segment_ok _ _ _ _ E) as [_ Hx]. apply Hx; auto.
+  - destruct a as [d rest]. destruct (read_segment bs) as [o l] eqn:E. simpl in H2; subst.
+    destruct (read_segment_ok _ _ _ _ E) as [Hx _]. auto.
+Qed.
+
+(* good with g = true gives the three theorems *)
+Lemma good_np : forall {A} B (p : A -> Prop) m, good true B p m -> fst m <> Panic.
+Proof. intros A B p m (H & _). auto. Qed.
+Lemma good_nf : forall {A} g B (p : A -> Prop) m, good g B p m -> fst m <> OutOfFuel.
+Proof. intros A g B p m (_ & H & _). auto. Qed.
+Lemma good_allocs : forall {A} g B (p : A -> Prop) m, good g B p m -> Forall (fun a => a <= B) (snd m).
+Proof. intros A g B p m (_ & _ & H & _). auto. Qed.
+
+(* result-relative allocation bound: requests <= K before the result is known, and
+   <= c * S(result) + K overall *)
+Definition bounded {A} (S_of : A -> Z) (c K : Z) (m : M A) : Prop :=
+  Forall (fun a => a <= c * (match fst m with Ok r => S_of r | _ => 0 end) + K) (snd m).
+Lemma bounded_bind_small : forall {A C} (S_of : C -> Z) c K (m : M A) (f : A -> M C),
+  0 <= c -> (forall r, 0 <= S_of r) ->
+  Forall (fun a => a <= K) (snd m) -> (forall a l, m = (Ok a, l) -> bounded S_of c K (f a)) ->
+  bounded S_of c K (bind m f).
+Proof.
+  intros A C S_of c K [[a| | |] l] f Hc HS Hm Hf; unfold bounded, bind in *; simpl in *;
+    try (eapply Forall_impl; [|exact Hm]; simpl; intros; lia).
+  apply Forall_app. split; [|apply (Hf a l eq_refl)].
+  eapply Forall_impl; [|exact Hm]. simpl. intros x Hx.
+  destruct (fst (f a)); try lia. specialize (HS a0). nia.
+Qed.
+Lemma bounded_small : forall {A} (S_of : A -> Z) c K (m : M A),
+  0 <= c -> (forall r, 0 <= S_of r) -> Forall (fun a => a <= K) (snd m) -> bounded S_of c K m.
+Proof.
+  intros. unfold bounded. eapply Forall_impl; [|exact H1]. simpl; intros x Hx.
+  destruct (fst m); try lia. specialize (H0 a). nia.
+Qed.
